@@ -33,6 +33,8 @@ CHECKS = {
         "tests": [
             {"name": "TestC02Concurrent", "checks": [40, 600], "shards": [2, 16], "race": True, "floor": 0.9, "shrinktime": "30s"},
             {"name": "TestC02AttrCache", "enum": True, "race": True},
+            {"name": "TestC02Deep", "enum": True, "race": True},
+            {"name": "TestC02Reload", "enum": True, "race": True},
             K,
         ],
         "assumptions": ["schedules are explored by repetition, goroutine counts, GOMAXPROCS and yields, not enumerated; the race detector flags unsynchronised conflicting accesses without needing the bad timing",
